@@ -65,6 +65,11 @@ def corpus_cases():
     yield 'grdp', np.array([[0, 4], [1, 1], [2, 0.5], [3, 0.25], [5, 0]], float), dict(t=0.01, dist='perpendicular', cost='rmspe', order='area')
     yield 'min_point_rdp', np.array([[0, 4], [1, 1], [2, 0.5], [3, 0.25], [5, 0]], float), dict(m=4, ts=[0.001, 0.1])
     # ramps reaching exactly y = 0 with non-dyadic values: all distances below eps while relative-error costs stay rejecting
+    # knee followed by a tail of ~1e-17 values: every chord distance of the tail is below eps, the relative cost is not
+    tiny = np.array([[float(i), v] for i, v in enumerate([1.0, 0.5, 0.25, 3e-17, 2.5e-17, 1.2e-17, 1.1e-17, 0.4e-17])], float)
+    for cost in ('smape', 'rpd', 'rmspe', 'r2'):
+        yield 'grdp', tiny, dict(t=0.05 if cost != 'r2' else 0.99, dist='shortest', cost=cost, order='segment')
+        yield 'mp_grdp', tiny, dict(t=0.05 if cost != 'r2' else 0.99, m=7, dist='shortest', cost=cost, order='area')
     ramp3 = np.array([[10.0, 2.22], [10.1, 1.11], [10.2, 0.0]], float)
     hinge = np.array([[10.0, 5.0], [10.1, 3.9], [10.2, 2.22], [10.3, 1.11], [10.4, 0.0]], float)
     for w in (ramp3, hinge):
